@@ -4,6 +4,10 @@
    (value part, argument map in ForEach order, IsRequired, Find / Has probes, or the outcome of a real
    app.Run), and -- for inputs of the structured generator -- the structure the generator intended.
 
+   A share of the direct / scan cases goes on to drive the exported argument API on the parsed Property
+   (SetArg / AddArg / Args().Set / Add: [cops]) and reports the table again ([cafter]); the app.Run kinds
+   include the prop shorthand with the key absent from / present in the configuration (kinds 6 / 7).
+
    [check_case]  : Model/TagGrammar.v (the functions the C19 theorems are about) == implementation.
    [oracle_case] : the property itself on the implementation's observation, computed with this file's own
                    small helpers (ASCII first-letter upper-casing, last-wins association, sorting), not
@@ -57,7 +61,9 @@ Record probe := mkProbe {
           2 scanned under key prop          (shorthand rewrite + Required default)
           3 app.Run, wire on a pointer field whose type has no provider
           4 app.Run, wire (by type) on a pointer field whose type has a provider
-          5 app.Run, value on a string field *)
+          5 app.Run, value on a string field
+          6 app.Run, prop on a string field, the shorthand's key is absent from the configuration
+          7 app.Run, prop on a string field, the key is configured with the plain string [ccfg] *)
 (* what one parse reported (kinds 0-2) *)
 Record pobs := mkPobs {
   fnprops : nat;
@@ -79,6 +85,20 @@ Record pobs := mkPobs {
               The model's parse is a function of the tag text alone, so both observations are compared with the same
               [model_of c]; the oracle demands that the second observation equals the first one and satisfies everything
               a single parse has to satisfy. *)
+(* what the driver saw after it applied [cops] to the parsed Property through the exported API *)
+Record aobs := mkAobs {
+  aargs : argmap;           (* Args().ForEach order *)
+  areq : bool;              (* IsRequired() *)
+  aprobes : list probe;     (* Find / Has under the spelling of every operation and with the first letter flipped *)
+  astr : bytes              (* Args().String(): the library's own rendering of the table *)
+}.
+
+(* [cops], [cafter] : THE EXPORTED ARGUMENT API (kinds 0-2).  After the parse was observed the driver called
+              Property.SetArg / AddArg (or Args().Set / Add) with the names and values of [cops], in order - names in the
+              spelling tags use ("qualifier"), in the canonical one ("Qualifier"), of arguments the tag declares and of
+              ones it does not, unknown names, the empty name, non-ASCII first bytes - and then observed the table again:
+              [cafter].  The model applies [apply_ops] (Model/TagGrammar.v) to the parsed table; the oracle recomputes
+              the table from the OBSERVED parse with its own helpers (last write wins / append, canonical key). *)
 Record case := mkCase {
   cid : nat;
   ckind : N;
@@ -95,7 +115,10 @@ Record case := mkCase {
   cfieldstr : bytes;
   cintent : option (bytes * list (bytes * list bytes));
   cagain : N;
-  cfirst : option pobs
+  cfirst : option pobs;
+  cops : list arg_op;
+  cafter : option aobs;
+  ccfg : bytes              (* kind 7: the configured value of the shorthand's key *)
 }.
 
 (* ---- decoding one serialised case ------------------------------------------------------------- *)
@@ -152,14 +175,26 @@ Definition p_pobs : P pobs :=
 Definition p_first : P (option pobs) :=
   p_bind p_bool (fun present => if present then p_bind p_pobs (fun f => p_ret (Some f)) else p_ret None).
 
+Definition p_op : P arg_op :=
+  p_bind p_num (fun k => p_bind p_bytes (fun name => p_bind (p_list p_bytes) (fun vals =>
+  p_ret (if Nat.eqb k 0 then OpSet name vals else OpAdd name vals)))).
+
+Definition p_after : P (option aobs) :=
+  p_bind p_bool (fun present =>
+  if present then
+    p_bind (p_list p_kv) (fun args => p_bind p_bool (fun req => p_bind (p_list p_probe) (fun probes =>
+    p_bind p_bytes (fun str => p_ret (Some (mkAobs args req probes str))))))
+  else p_ret None).
+
 Definition p_case (id : nat) : P case :=
   p_bind p_num (fun kind => p_bind p_bytes (fun tag => p_bind p_bool (fun panic =>
   p_bind p_num (fun nprops => p_bind p_bytes (fun tagval => p_bind p_bool (fun same =>
   p_bind (p_list p_kv) (fun args => p_bind p_bool (fun req => p_bind (p_list p_probe) (fun probes =>
   p_bind p_bool (fun failed => p_bind p_bool (fun fieldnil => p_bind p_bytes (fun fieldstr =>
   p_bind p_intent (fun intent => p_bind p_num (fun again => p_bind p_first (fun first =>
+  p_bind (p_list p_op) (fun ops => p_bind p_after (fun after => p_bind p_bytes (fun cfg =>
   p_ret (mkCase id (N.of_nat kind) tag panic nprops tagval same args req probes failed fieldnil
-                fieldstr intent (N.of_nat again) first)))))))))))))))).
+                fieldstr intent (N.of_nat again) first ops after cfg))))))))))))))))))).
 
 Definition decode_case (id : nat) (blob : list int) : option case :=
   match p_case id (B blob) with
@@ -218,8 +253,15 @@ Definition check_probe (m : argmap) (p : probe) : bool :=
 Definition model_of (c : case) : res (bytes * argmap) :=
   match ckind c with
   | 0%N => tag_parse (ctag c)
-  | 2%N => scan_property true true (ctag c)
+  | 2%N | 6%N | 7%N => scan_property true true (ctag c)
   | _ => scan_property false true (ctag c)
+  end.
+
+(* kinds 6 / 7: the value part the shorthand must produce for the key the generator wrote: ${key} *)
+Definition shorthand_of_intent (c : case) (v : bytes) : bool :=
+  match cintent c with
+  | Some (key, _) => bytes_eqb v ([36; 123]%N ++ key ++ [125]%N)
+  | None => false
   end.
 
 Definition is_nil (b : bytes) : bool := match b with [] => true | _ => false end.
@@ -234,6 +276,25 @@ Definition check_pobs (v : bytes) (m : argmap) (req : bool) (o : pobs) : bool :=
   && map_eqb (sort_map m) (fargs o) && Bool.eqb req (freq o)
   && forallb (check_probe m) (fprobes o).
 
+(* the table after the API calls: the model's [apply_ops] on the parsed table against what the driver saw *)
+Definition check_after (m : argmap) (c : case) : bool :=
+  match cops c, cafter c with
+  | [], None => true
+  | _, None => false
+  | ops, Some a =>
+    match apply_ops m ops with
+    | Panic => false                        (* the driver reported a table, so nothing panicked there *)
+    | Ok m' =>
+      match is_required m' with
+      | Panic => false
+      | Ok req =>
+        map_eqb (sort_map m') (aargs a) && Bool.eqb req (areq a)
+        && forallb (check_probe m') (aprobes a)
+        && bytes_eqb (args_string (sort_map m')) (astr a)
+      end
+    end
+  end.
+
 Definition check_case (c : case) : bool :=
   match model_of c with
   | Panic => cpanic c
@@ -246,8 +307,11 @@ Definition check_case (c : case) : bool :=
       | 0%N | 1%N | 2%N =>
         check_pobs v m req (obs_of_case c)
         && match cfirst c with Some f => check_pobs v m req f | None => true end
+        && check_after m c
       | 3%N => Bool.eqb (cfailed c) req && cfieldnil c
       | 4%N => negb (cfailed c) && negb (cfieldnil c)
+      | 6%N => shorthand_of_intent c v && Bool.eqb (cfailed c) req && is_nil (cfieldstr c)
+      | 7%N => shorthand_of_intent c v && negb (cfailed c) && bytes_eqb (cfieldstr c) (ccfg c)
       | _ => if is_nil v then Bool.eqb (cfailed c) req && is_nil (cfieldstr c)
              else negb (cfailed c) && bytes_eqb (cfieldstr c) v
       end
@@ -339,11 +403,51 @@ Definition independent (c : case) : bool :=
   | _, None => false                      (* a repeated parse always reports its first observation *)
   end.
 
+(* the argument API on the implementation's own observations: starting from the OBSERVED parse, every Set binds the
+   canonical name to the values given, every Add appends them to what the name was bound to (nothing if absent), the
+   empty name is ignored; the table observed afterwards is that table, it is sorted, IsRequired and every probe
+   (either spelling) answer from it, and the library's rendering lists exactly its entries.  Operations whose name
+   starts with a non-ASCII byte are compared with the model only (their canonical key is strings.ToUpper's business). *)
+Definition op_name (o : arg_op) : bytes := match o with OpSet t _ | OpAdd t _ => t end.
+
+Definition o_apply_op (m : argmap) (o : arg_op) : argmap :=
+  match o with
+  | OpSet [] _ | OpAdd [] _ => m
+  | OpSet t v => o_put m (o_upper_first t) v
+  | OpAdd t v => o_put m (o_upper_first t)
+                   (match o_lookup m (o_upper_first t) with Some old => old ++ v | None => v end)
+  end.
+
+Fixpoint o_join_comma (l : list bytes) : bytes :=
+  match l with
+  | [] => []
+  | [x] => x
+  | x :: r => x ++ 44%N :: o_join_comma r
+  end.
+
+Definition o_render (m : argmap) : bytes :=
+  flat_map (fun kv : bytes * list bytes => 46%N :: fst kv ++ 40%N :: o_join_comma (snd kv) ++ [41%N]) m.
+
+Definition oracle_after (c : case) : bool :=
+  match cops c, cafter c with
+  | [], None => true
+  | [], Some _ => false
+  | _, None => false
+  | ops, Some a =>
+    strictly_sorted (aargs a)
+    && Bool.eqb (areq a) (negb (o_optional (aargs a)))
+    && forallb (oracle_probe (aargs a)) (aprobes a)
+    && bytes_eqb (o_render (aargs a)) (astr a)
+    && (if forallb (fun o => is_nil (op_name o) || first_is_ascii (op_name o)) ops
+        then map_eqb (sort_map (fold_left o_apply_op ops (cargs c))) (aargs a)
+        else true)
+  end.
+
 Definition oracle_case (c : case) : bool :=
   negb (cpanic c) &&
   match ckind c with
   | 0%N | 1%N | 2%N =>
-    independent c &&
+    independent c && oracle_after c &&
     Nat.eqb (cnprops c) 1 && ctagstr_same c && strictly_sorted (cargs c)
     && Bool.eqb (creq c) (negb (o_optional (cargs c)))
     && forallb (oracle_probe (cargs c)) (cprobes c)
@@ -363,14 +467,20 @@ Definition oracle_case (c : case) : bool :=
       match k with
       | 3%N => Bool.eqb (cfailed c) (negb optional) && cfieldnil c
       | 4%N => negb (cfailed c) && negb (cfieldnil c)
+      (* the prop shorthand: whatever else the tag carries, in whatever order, an absent key fails the start exactly
+         when the point is not optional, and a present key is bound *)
+      | 6%N => Bool.eqb (cfailed c) (negb optional) && is_nil (cfieldstr c)
+      | 7%N => negb (cfailed c) && bytes_eqb (cfieldstr c) (ccfg c)
       | _ => if is_nil v then Bool.eqb (cfailed c) (negb optional) && is_nil (cfieldstr c)
              else negb (cfailed c) && bytes_eqb (cfieldstr c) v
       end
     end
   end.
 
-(* non-trivial: the tag contains a "," (the block-aware splitter and the argument loop both run) *)
-Definition nontrivial (c : case) : bool := existsb (N.eqb 44) (ctag c).
+(* non-trivial: the tag contains a "," (the block-aware splitter and the argument loop both run), or the argument
+   API was exercised on the parsed Property *)
+Definition nontrivial (c : case) : bool :=
+  existsb (N.eqb 44) (ctag c) || match cops c with [] => false | _ => true end.
 
 Definition mismatches (cs : list case) : list nat :=
   map cid (filter (fun c => negb (check_case c)) cs).
